@@ -196,6 +196,31 @@ def seg_eval(t, env):
         if isinstance(c, Dep):
             return c
         return seg_eval(t[2] if c else t[3], env)
+    if op == 'mcall' and t[2] in ('lstrip', 'rstrip', 'strip') and len(t[3]) == 1:
+        # stripping bytes off a layout: how many go depends on the CONTENT of the first / last symbolic field that is reached
+        base = seg_eval(t[1], env)
+        chars = seg_eval(t[3][0], env)
+        if isinstance(base, Dep):
+            return base
+        if is_seg(base) and is_seg(chars) and len(chars) == 1 and isinstance(chars[0], bytes):
+            cs = chars[0]
+            parts = list(base)
+            sides = (['l'] if t[2] in ('lstrip', 'strip') else []) + (['r'] if t[2] in ('rstrip', 'strip') else [])
+            for side in sides:
+                while parts:
+                    p0 = parts[0] if side == 'l' else parts[-1]
+                    if not isinstance(p0, bytes):
+                        return Dep([p0[1] if isinstance(p0, tuple) and len(p0) > 1 else str(p0)])
+                    stripped = p0.lstrip(cs) if side == 'l' else p0.rstrip(cs)
+                    if stripped:
+                        if side == 'l':
+                            parts[0] = stripped
+                        else:
+                            parts[-1] = stripped
+                        break
+                    parts.pop(0 if side == 'l' else -1)
+            return _join(parts)
+        raise SegUnknown(show(t)[:120])
     if op == 'call' and t[1] == 'ord' and len(t[2]) == 1:
         v = seg_eval(t[2][0], env)
         if is_seg(v) and seg_len(v) == 1:
